@@ -207,6 +207,9 @@ func evName(e *Event) string {
 func replay(path string, sum *hx.Summary) {
 	seen := map[string]bool{}
 	hx.ReadNDJSON(path, func(i int, sc *Script) {
+		if tooManyHangs() {
+			return
+		}
 		exp := sc.Exp
 		obs := runScript(sc, sum)
 		sum.Evaluations++
@@ -294,7 +297,7 @@ func record(out string, n int, sum *hx.Summary) {
 		return o
 	}
 	trs := []string{"tcp", "tcp", "tls", "pc"}
-	for i := 0; i < n; i++ {
+	for i := 0; i < n && !tooManyHangs(); i++ {
 		sc := &Script{Tr: trs[rng.Intn(len(trs))]}
 		sc.MaxQ = []int{0, 0, -1, 1, 2, 3, 4}[rng.Intn(7)]
 		sc.RT = []string{"", "1h"}[rng.Intn(2)]
